@@ -30,6 +30,12 @@ def run(tier, seed, scale=1.0):
     n = int((15000 if tier == "quick" else 1000000) * scale)
     res.merge(vdriver.explore(common.spec("simnet", "sockets", seed), n, chunk=max(250, n // 128), chunk_timeout=600))
     res.merge(vdriver.explore(common.spec("simnet", "hostile", seed), n, chunk=max(250, n // 128), chunk_timeout=600))
+    # (c) the library's own socket functions over real descriptors (engine E6 defsock): link-time wraps of the libc
+    # calls keep a ledger of descriptors and fail the k-th call of one function
+    n3 = int((7000 if tier == "quick" else 400000) * scale)
+    r3 = vdriver.explore(common.spec("defsock", "faults", seed), n3, chunk=max(100, n3 // 128), chunk_timeout=600)
+    r3.counters = {"defsock_" + k: v for k, v in r3.counters.items()}
+    res.merge(r3)
     complete = r1.counters.get("faultenum_scenario_complete", 0)
     extra = dict(fault_enumeration=dict(scenarios=nscn, scenarios_enumerated_past_last_call=complete,
                                         faults_fired=r1.counters.get("faultenum_fired", 0),
